@@ -14,7 +14,7 @@
    Not modelled: PIL's mode conversion (a Section variable [conv] with the two laws that are used),
    the compositor's arithmetic (its result is an input), the codecs themselves (C04/C05: here a
    compressed payload is represented by what a correct decoder can see of it, see [set_data]). *)
-From PsdV Require Import Base.Prelude.
+From PsdV Require Import Base.Prelude Pixels.F32.
 Open Scope Z_scope.
 
 (* ------------------------------------------------------------------ modes *)
@@ -139,10 +139,11 @@ Record cfg := mkCfg {
   fx_alpha : bool;   (* F-C07-2  PixelLayer.frompil takes the alpha band before the conversion *)
   fx_matte : bool;   (* F-C07-4  PSDImage.frompil stores RGBA on white *)
   fx_bitmap : bool;  (* F-C07-5  PSDImage.frompil converts mode "1" to "L" *)
-  fx_save : bool     (* F-C17-1/2/3  save() writes the planes the header declares *)
+  fx_save : bool;    (* F-C17-1/2/3  save() writes the planes the header declares *)
+  fx_deep : bool     (* F-C07-7  PixelLayer.frompil widens the samples to the depth of the document *)
 }.
-Definition unfixed := mkCfg false false false false false.
-Definition fixed := mkCfg true true true true true.
+Definition unfixed := mkCfg false false false false false false.
+Definition fixed := mkCfg true true true true true true.
 
 (* ------------------------------------------------------------------ ImageData container *)
 (* A compressed payload is represented by [i_vis]: the bytes a correct decoder of that method can
@@ -433,3 +434,21 @@ Definition layer_numpy_color (cm : cmode) (l : layer) : list plane :=
   firstn (Z.to_nat (cm_channels cm)) (map snd (filter (fun c => 0 <=? fst c) (l_chans l))).
 Definition layer_numpy_shape (l : layer) : list plane :=
   match find_chan (-1) l with Some a => [a] | None => [] end.
+
+(* ------------------------------------------------------------------ layers in 16 / 32-bit documents *)
+(* the bytes of one sample 0..255 in the depth of the document, as the corrected PixelLayer.frompil
+   writes them: x * 257 as a big-endian 16-bit integer (= the byte twice), x / 255 as a big-endian single *)
+Definition enc_sample (depth v : Z) : list Z :=
+  if depth =? 16 then [v; v] else if depth =? 32 then f32_of_sample v else [v].
+Definition enc_plane (depth : Z) (p : plane) : list Z := flat_map (enc_sample depth) p.
+(* the channel bytes PixelLayer.frompil hands to ChannelData.set_data for a document of that depth *)
+Definition layer_stored (c : cfg) (depth : Z) (l : layer) : list (Z * list Z) :=
+  map (fun ch => (fst ch, if fx_deep c then enc_plane depth (snd ch) else snd ch)) (l_chans l).
+(* how the readers see a 16-bit sample: numpy_io._parse_array v / 65535 (as a 0..255 sample: exact
+   quotient by 257), pil_io._create_image v * (1/256) truncated *)
+Definition dec16_np (hi lo : Z) : Z := (hi * 256 + lo) / 257.
+Definition dec16_pil (hi lo : Z) : Z := (hi * 256 + lo) / 256.
+(* export of a layer of a document of [depth]: with 8-bit planes in a deeper document the channel
+   cannot be decoded (which exception depends on the compression) *)
+Definition layer_topil_depth (c : cfg) (depth : Z) (cm : cmode) (l : layer) : res (option raster) :=
+  if (depth =? 8) || fx_deep c then layer_topil cm l else Err AssertErr.
